@@ -2,6 +2,7 @@ import SctpVerif.Proofs.NetSys.LiveDrain
 import SctpVerif.Proofs.NetSys.LiveTaken
 import SctpVerif.Proofs.NetSys.LiveRoundOk
 import SctpVerif.Proofs.NetSys.LiveHonest
+import SctpVerif.Proofs.NetSys.LiveHonestN
 import SctpVerif.Props.C01sel
 /-!
 # C02 on the composed model — the receiver's own SACKs make the sender-side progress theorems applicable
@@ -289,6 +290,36 @@ theorem C02_netsys_drains_roundok (P : Params) (ops : List Op) (n : Nat) (hc : S
   C02_netsys_drains_partial P ops n hc hf hN hest hsm
     (takenN_of_roundOkN P hc n ops hN (snd_live P ops hc hf hest hsm) hfit hrel hok) hn
 
+/-- **The healed rounds drain the sender of an HONEST run — `InSync` is no longer a premise.** From every reachable NetSys
+state over reliable ordered streams whose sender only ever processed SOUND SACKs (`Honest ops`, `TsnOk`), sender established:
+`n ≥ pending + in-flight chunks` healed rounds, at the start of each of which (if something is outstanding) the receiver is
+established, has `Room`, its receive queue is pop-normalised (`Normal`) and it does not answer the first delivery with an
+ABORT (`HeadOk`) — `RoundOkHN P n s` — end with both sender queues empty, `Association.BufferedAmount()` = 0, and every
+stream's `BufferedAmount()` = 0 under C15's D9 premise. Honesty is PRESERVED along the rounds: the SACK a healed round hands
+to the sender is the receiver's truthful one, which is sound (`NetSysLive.truthful_sound`, `hl_healed`).
+Premises left, each with the lemma that would remove it (file header): `Room` (from `FitsBuffer` + the reads), `Normal` and
+`HeadOk` (both from `maxReassemblyQueueEntries = 0`: they fail only after a reassembly error). -/
+theorem C02_netsys_drains_honest (P : Params) (ops : List Op) (n : Nat) (hc : SenderProofs.CfgOk P.cfg)
+    (hf : SenderProofs.CfgFit P.cfg) (hN : chunksWritten P ops < 2^31) (hrel : Reliable ops = true)
+    (hts : SenderProofs.TsnOk (Sender.init P.cfg P.tsn P.peerRwnd) (sndOps P (init P).snd ops))
+    (hh : Honest P (init P) ops = true)
+    (hest : (run P (init P) ops).snd.established = true)
+    (hsm : (run P (init P) ops).snd.inflight.length + (run P (init P) ops).snd.pending.length < 2^31)
+    (hok : RoundOkHN P n (run P (init P) ops) = true) (hn : outstanding (run P (init P) ops) ≤ n) :
+    let fin := run P (init P) (ops ++ healedRounds P n (run P (init P) ops))
+    fin = healedN P n (run P (init P) ops) ∧
+    fin.snd.inflight = [] ∧ fin.snd.pending = [] ∧ fin.snd.penBytes + fin.snd.infBytes = 0 ∧
+    (SenderProofs.RunOk (Sender.init P.cfg P.tsn P.peerRwnd)
+        (sndOps P (init P).snd (ops ++ healedRounds P n (run P (init P) ops))) →
+      fin.snd.wrapBuf = false → ∀ si, SenderProofs.bufOf fin.snd si = 0) := by
+  have hM : tsnsUsed P ops < 2^31 := Nat.lt_of_le_of_lt (tsnsUsed_le P ops) hN
+  have hfit : SenderProofs.InfFit (run P (init P) ops).snd := by
+    rw [snd_run]
+    exact SenderProofs.run_inffit _ _ (SenderProofs.init_seq _ _ _) (SenderProofs.init_win _ _ _ hc)
+      (SenderProofs.init_inffit _ _ _) hts
+  exact C02_netsys_drains_roundok P ops n hc hf hN hrel hest hsm hfit
+    (roundOkN_of_honest P hc n ops hN (snd_live P ops hc hf hest hsm) (run_hl P ops hc hM hts hh) hok) hn
+
 /-- **Safety along the healed rounds**: C01 for the run extended by any number of healed rounds — over reliable ordered
 streams with FIFO selection (the healed rounds select FIFO and open no stream), what the application has read on a stream is
 a prefix of what was written on it. (`C01_netsys_prefix_fifo` for the extended operation list; its hypotheses are
@@ -412,6 +443,15 @@ example :
     let bad := [Op.snd (.openS 1 false 0 0 0), .write 1 51, .snd (.gather Sender.freeOracle [0, 0, 0]),
       .snd (.sack 4294967294#32 65536 [] [])]
     Honest PD (init PD) bad = false ∧ InSync (run PD (init PD) bad) = false := by decide
+
+-- non-vacuity of `C02_netsys_drains_honest` (n = 9): honest history, `RoundOkHN` decided on the run
+set_option maxRecDepth 1000000 in
+example :
+    let fin := run PD (init PD) (ops0 ++ healedRounds PD 9 (run PD (init PD) ops0))
+    fin.snd.inflight = [] ∧ fin.snd.pending = [] ∧ fin.snd.penBytes + fin.snd.infBytes = 0 :=
+  let h := C02_netsys_drains_honest PD ops0 9 (by unfold SenderProofs.CfgOk; decide) (by unfold SenderProofs.CfgFit; decide)
+    (by decide) (by decide) (by decide) (by decide) (by decide) (by decide) (by decide) (by decide)
+  ⟨h.2.1, h.2.2.1, h.2.2.2.1⟩
 
 -- non-vacuity of `C02_netsys_delivered_prefix`
 set_option maxRecDepth 1000000 in
